@@ -70,6 +70,27 @@ def cases(tier, seed, phase):
                 msgs.append({'sender': sender, 'rcpts': rcpts, 'data': (h + blank + body).hex()})
             return {'kind': 'hop', 'transport': transport, 'cfg': cfg, 'msgs': msgs}
         yield mk
+    # some recipients refused by the edge (others accepted, some listed twice): each recipient's result is the reply the edge gave it
+    for j in range(150 if tier == 'quick' else 3000):
+        def mk(j=j):
+            rng = rng_for(seed, 'c06j', j)
+            rcpts = []
+            for _ in range(rng.choice([2, 3, 4, 6])):
+                r = gen_addr(rng, False)
+                if r not in rcpts:
+                    rcpts.append(r)
+            if rng.random() < 0.5:
+                rcpts.insert(rng.randrange(len(rcpts) + 1), rng.choice(rcpts))
+            distinct = list(dict.fromkeys(rcpts))
+            reject = [r for r in distinct if rng.random() < 0.4]
+            if len(reject) == len(distinct):
+                reject = reject[1:]
+            wf = gen_wf(rng)
+            data = bytes(b & 0x7f for b in bytes.fromhex(wf['h']) + bytes.fromhex(wf['blank']) + bytes.fromhex(wf['body']))
+            cfg = {'pipelining': rng.random() < 0.6, 'eightbit': True, 'smtputf8': False, 'size': None, 'ehlo500': False, 'queue': '250',
+                   'tls': False, 'auth': False, 'reject': reject}
+            return {'kind': 'hopreject', 'transport': 'smtp', 'cfg': cfg, 'msgs': [{'sender': gen_addr(rng, False), 'rcpts': rcpts, 'data': data.hex()}]}
+        yield mk
     # two HTTP deliveries in flight at the same edge at once: the head and part of the body of one request arrive, then the whole
     # other request, then the rest of the first
     for j in range(40 if tier == 'quick' else 600):
@@ -229,6 +250,11 @@ def run_hop_smtp(case, model):
             if cfg['ehlo500']:
                 reply.code = '500'
                 reply.message = '5.5.1 EHLO not spoken here'
+
+        def handle_rcpt(self, reply, recipient, params):
+            if recipient in cfg.get('reject', ()):
+                reply.code = '550'
+                reply.message = '5.1.1 no such user'
     esmtp.Server = CfgServer
     tls_kw, relay_kw = {}, {}
     if cfg.get('tls'):
@@ -382,6 +408,26 @@ def run_hop_lmtp(case, model):
 
 
 ADDR_RE = re.compile(rb'^[A-Za-z]+ [A-Za-z]+:<(.*)>( SIZE=\d+)?\r?\n$', re.S)
+
+
+def run_hop_reject(case, model):
+    cfg = case['cfg']
+    q, taps, servers, clients, results = run_hop_smtp(case, model)
+    m = case['msgs'][0]
+    hits = []
+    kind, codes = results[0]
+    want = ['550' if r in cfg['reject'] else '250' for r in m['rcpts']]
+    accepted = [r for r in m['rcpts'] if r not in cfg['reject']]
+    if kind != 'ret' or codes != want:
+        hits.append(hit('c06.result-differs-from-edge-reply.smtp', 'the relay reports for a recipient something else than the reply the edge gave it',
+                        observed={'kind': kind, 'codes': codes}, expected=want))
+    elif len(q.got) != 1 or q.got[0]['sender'] != m['sender'] or q.got[0]['rcpts'] != accepted:
+        hits.append(hit('c06.recipients-changed.smtp', 'the edge did not receive exactly the recipients it accepted, in order',
+                        observed=[(g['sender'], g['rcpts'][:6]) for g in q.got], expected=(m['sender'], accepted[:6])))
+    tags = ['hop-smtp-rcpt-refused', 'pipelining' if cfg['pipelining'] else 'no-pipelining']
+    if len(set(m['rcpts'])) < len(m['rcpts']):
+        tags.append('duplicate-recipient')
+    return CaseResult(None, hits, ('hopreject', repr(sorted(cfg.items(), key=str)), repr(m)), tags)
 
 
 def run_wsgi_pair(case, model):
@@ -722,4 +768,6 @@ def run_case(case, model):
         return run_hop(case, model)
     if case['kind'] == 'wsgipair':
         return run_wsgi_pair(case, model)
+    if case['kind'] == 'hopreject':
+        return run_hop_reject(case, model)
     return run_unit(case, model)
